@@ -1,13 +1,25 @@
 #!/usr/bin/env python3
-"""Run every kept seeded change (seeded/<id>/patch.diff) against the check of the property it breaks.
-usage: tools/run_seeds.py [id-substring ...]"""
+"""Run every kept seeded change (seeded/<id>/patch.diff) against the check of the property it breaks, in a scratch
+worktree of /repo (never /repo itself).  usage: tools/run_seeds.py [id-substring ...]"""
 import json
-import os as _os
-_os.environ["VERIF_NO_EVIDENCE"] = "1", os, subprocess, sys
+import os
+import subprocess
+import sys
+
+os.environ["VERIF_NO_EVIDENCE"] = "1"
 V = os.path.dirname(os.path.dirname(os.path.abspath(__file__)))
-def sh(c, **k): return subprocess.run(c, shell=True, capture_output=True, text=True, **k)
-if sh("git -C /repo status --porcelain --untracked-files=no").stdout.strip():
-    raise SystemExit("refusing: /repo dirty")
+R = os.environ.get("SELFTEST_REPO", "/tmp/verif_selftest_repo")
+
+
+def sh(c, **k):
+    return subprocess.run(c, shell=True, capture_output=True, text=True, **k)
+
+
+head = sh("git -C /repo rev-parse HEAD").stdout.strip()
+if not os.path.exists(os.path.join(R, ".git")):
+    sh("git -C /repo worktree prune; git -C /repo worktree add --detach %s %s" % (R, head))
+sh("git -C %s checkout -q --detach %s && git -C %s checkout -- ." % (R, head, R))
+os.environ["VERIF_REPO"] = R
 res = []
 for sid in sorted(os.listdir(os.path.join(V, "seeded"))):
     if sys.argv[1:] and not any(s in sid for s in sys.argv[1:]):
@@ -15,17 +27,19 @@ for sid in sorted(os.listdir(os.path.join(V, "seeded"))):
     meta = json.load(open(os.path.join(V, "seeded", sid, "meta.json")))
     props = [meta["property"]] + meta.get("also_check", [])
     try:
-        r = sh("git -C /repo apply %s" % os.path.join(V, "seeded", sid, "patch.diff"))
+        r = sh("git -C %s apply %s" % (R, os.path.join(V, "seeded", sid, "patch.diff")))
         if r.returncode:
-            print("%-55s PATCH-DOES-NOT-APPLY" % sid); res.append((sid, False)); continue
+            print("%-58s PATCH-DOES-NOT-APPLY (the tree has moved on: %s)" % (sid, r.stderr.strip()[:80]))
+            res.append((sid, None))
+            continue
         hit = []
         for p in props:
             o = sh("./check %s" % p, cwd=V)
             if "VIOLATION property=%s" % p in o.stdout:
                 fails = [l.strip().split()[1] for l in o.stdout.splitlines() if l.strip().startswith("FAIL ")]
                 hit.append((p, fails[:3]))
-        print("%-55s %s %s" % (sid, "DETECTED" if hit else "MISSED", hit))
+        print("%-58s %s %s" % (sid, "DETECTED" if hit else "MISSED", hit))
         res.append((sid, bool(hit)))
     finally:
-        sh("git -C /repo checkout -- .")
-print("%d seeds, %d detected" % (len(res), sum(1 for _, ok in res if ok)))
+        sh("git -C %s checkout -- ." % R)
+print("%d seeds, %d detected, %d missed, %d not applicable" % (len(res), sum(1 for _, ok in res if ok), sum(1 for _, ok in res if ok is False), sum(1 for _, ok in res if ok is None)))
